@@ -12,10 +12,8 @@
 -/
 namespace W2c2Verif.Dir
 
-abbrev Bytes := List UInt8
-
 structure Entry where
-  name : Bytes            -- d_name, without the terminating NUL
+  name : List UInt8       -- d_name, without the terminating NUL
   ino : Nat               -- d_ino
   dtype : Nat             -- d_type (DT_*)
   /-- WASI file type that `lstat(dir/name)` + wasiFileTypeFromMode gives (`none`: lstat fails);
